@@ -83,6 +83,29 @@ func TestC18Copy(t *testing.T) {
 			src = sr
 		}
 
+		// Slices with room to grow (emptied in place, or built with spare
+		// capacity): what is appended on one side later must not land in
+		// memory the other side uses.
+		if rapid.IntRange(0, 3).Draw(t, "spare") == 0 {
+			if p := oracle.Try(func() {
+				if _, ok := src.Attrs()["by"]; ok {
+					keep := rapid.IntRange(0, 1).Draw(t, "spare-by-len")
+					b := append(make([]byte, 0, 8), []byte{7, 7}[:keep]...)
+					src.Set("by", b)
+					vals["by"] = append([]byte{}, b...)
+				}
+
+				if _, ok := src.Rels()["m"]; ok {
+					keep := rapid.IntRange(0, 1).Draw(t, "spare-m-len")
+					ids := append(make([]string, 0, 8), []string{"only"}[:keep]...)
+					src.Set("m", ids)
+					vals["m"] = append([]string{}, ids...)
+				}
+			}); p != nil {
+				t.Fatalf("C18 violated: Set %s", p)
+			}
+		}
+
 		// Slices obtained from the source before it is copied are still
 		// "slices obtained from it".
 		var (
@@ -159,7 +182,7 @@ func TestC18Copy(t *testing.T) {
 			}
 
 			snap := oracle.SnapshotResource(y, false)
-			ops := []string{"set-attr", "set-rel", "set-id", "marshal", "filter", "write-bytes", "write-ids", "write-ptr-bytes"}
+			ops := []string{"set-attr", "set-rel", "set-id", "marshal", "filter", "write-bytes", "write-ids", "write-ptr-bytes", "append-bytes", "append-ids"}
 			if x == src {
 				ops = append(ops, "write-pre-bytes", "write-pre-ids", "write-pre-ptr-bytes")
 			}
@@ -226,6 +249,21 @@ func TestC18Copy(t *testing.T) {
 					if _, ok := x.Rels()[name]; ok {
 						if ids, ok := x.Get(name).([]string); ok && len(ids) > 0 {
 							ids[len(ids)-1] = "mutated"
+							inPlace++
+						}
+					}
+				case "append-bytes":
+					if _, ok := x.Attrs()["by"]; ok {
+						if b, ok := x.Get("by").([]byte); ok {
+							x.Set("by", append(b, byte(0x40+i), byte(len(xname))))
+							inPlace++
+						}
+					}
+				case "append-ids":
+					name := rapid.SampledFrom([]string{"m", "m2"}).Draw(t, "which")
+					if _, ok := x.Rels()[name]; ok {
+						if ids, ok := x.Get(name).([]string); ok {
+							x.Set(name, append(ids, fmt.Sprintf("appended-%d-to-the-%s", i, xname)))
 							inPlace++
 						}
 					}
